@@ -172,6 +172,7 @@ def check_point(pt):
         return [V("read-raises", "own output readable", "%s: %s" % (type(e).__name__, str(e)[:150]), text,
                   "long-token" if long_tok else "")], nontriv, "read-raise", {}, 2
     vio = []
+    back_list = list(back.curves)
     if len(back.curves) != nc:
         vio.append(V("curve-count", nc, len(back.curves), text))
     elif back.keys() != names:
@@ -183,7 +184,7 @@ def check_point(pt):
         else:
             for j in range(nc):
                 fmt = kw.get("column_fmt", {}).get(j, kw["fmt"])
-                col = np.asarray(back.curves[j].data)
+                col = np.asarray(back_list[j].data)  # positional access by iteration, never through a lookup
                 if col.dtype.kind != "f":
                     vio.append(V("dtype", "float column", str(col.dtype), text))
                     break
